@@ -157,6 +157,18 @@ func c05Scenarios(tier string) []*Scenario {
 		add(tr, "cancel", false, RPC{Kind: "bd", Client: []string{"S0", "C", "H", "R*"}, Handler: []string{"r*", "w", "ret:ctx"}}, "")
 		// with a canceller
 		add(tr, "cancel", false, RPC{Kind: "bd", Client: []string{"S0", "S1", "C", "R*"}, Handler: []string{"r*", "s0", "s1", "ret:ok"}}, "")
+		// ... landing while a message is being encoded / decoded / copied (the codec and the cloner as scheduling points)
+		for _, rpc := range []RPC{
+			{Kind: "ss", Client: []string{"S0", "C", "R*", "T"}, Handler: []string{"r", "s0", "s1", "ret:ok"}},
+			{Kind: "cs", Client: []string{"S0", "S1", "C", "R*", "R"}, Handler: []string{"r*", "s0", "ret:ok"}},
+		} {
+			add(tr, "cancel", false, rpc, "codec")
+			sc := out[len(out)-1]
+			sc.Name += "|codec"
+			if tr == "inproc" {
+				sc.Cloner = "yield"
+			}
+		}
 		add(tr, "cancel", false, RPC{Kind: "bd", Client: []string{"S0", "S1", "C"}, Client2: []string{"R*"}, Handler: []string{"r*", "s0", "ret:ok"}}, "")
 		if tr == "inproc" {
 			add(tr, "cancel", false, RPC{Kind: "bd", Client: []string{"S0", "S1", "C"}, Client2: []string{"R*"}, Handler: []string{"go", "r*", "join", "ret:ok"}, Handler2: []string{"s0", "s1"}}, "")
